@@ -125,6 +125,30 @@ Proof.
   - new_fobj Hfo fs. eapply fobj_ok_rc; [eapply fobj_ok_mono; [eapply Hfo; eauto | lm] | exact Lv | reflexivity | cbn [fo_own]; congruence].
 Qed.
 
+(* ------------------------------------------------------------ arguments taken from a wrapper *)
+Lemma resolve_wrap_ptr st j off n q c : resolve_wrap st j off n = Some (q, c) -> length c <> 0 -> q <> None.
+Proof.
+  unfold resolve_wrap. destruct (slot_arr st (slot_at st j)) as [a|]; [|discriminate].
+  destruct (off + n <=? a_len a); [|discriminate].
+  destruct (a_ptr a) as [[b o]|].
+  - destruct (nth_error (heap st) b) as [bu|]; [|discriminate].
+    destruct (b_alive bu && (o + a_len a <=? length (b_cells bu))); [|discriminate].
+    intro H; inversion H; subst. intros _; discriminate.
+  - intro H; inversion H; subst. simpl. intro E; congruence.
+Qed.
+
+Lemma wf_step_FromWrap st i kd j off n st' : WF st -> step true true st (FromWrap i kd j off n) = Some st' -> WF st'.
+Proof.
+  intros W H. cbn [step] in H. destruct (resolve_wrap st j off n) as [[q c]|] eqn:Ew; [|discriminate].
+  eapply wf_build; [exact W| |exact H]. intros _. eapply resolve_wrap_ptr; eauto.
+Qed.
+
+Lemma wf_step_ResetWrap st i j off n st' : WF st -> step true true st (ResetWrap i j off n) = Some st' -> WF st'.
+Proof.
+  intros W H. cbn [step] in H. destruct (resolve_wrap st j off n) as [[q c]|] eqn:Ew; [|discriminate].
+  eapply wf_assign_from; [exact W| |exact H]. eapply resolve_wrap_ptr; eauto.
+Qed.
+
 (* ------------------------------------------------------------ the main theorem *)
 Theorem wf_step st o st' : WF st -> step true true st o = Some st' -> WF st'.
 Proof.
@@ -147,6 +171,8 @@ Proof.
   - eapply wf_step_MoveAssign; eauto.
   - eapply wf_step_Destroy; eauto.
   - eapply wf_step_Write; eauto.
+  - eapply wf_step_FromWrap; eauto.
+  - eapply wf_step_ResetWrap; eauto.
 Qed.
 
 Lemma wf_step' st o : WF st -> WF (step' true true st o).
